@@ -669,6 +669,8 @@ fn replay(ctx: &Ctx, case: &Value) {
 fn main() {
     // a stack overflow / abort in the code under test must become a verdict, not a dead check
     vcore::supervise("C01");
+    // logging is part of the environment: evaluate every log argument as a real subscriber would
+    vcore::install_log_evaluation();
     let ctx = Ctx::from_args("C01", "exploration");
     let thorough = !ctx.quick();
     ctx.case_timeout_s.store(300, std::sync::atomic::Ordering::Relaxed);
